@@ -4,6 +4,7 @@ import (
 	"fmt"
 	"math"
 	"regexp"
+	"strconv"
 	Time "time"
 )
 
@@ -269,13 +270,59 @@ var (
 		Time.RFC1123,
 	}
 	matchDateTimeZone = regexp.MustCompile(`^(.*)(?:(Z)|([\+\-]\d{2}):(\d{2}))$`)
+	// The Date Time String Format of 15.9.1.15, including expanded years (15.9.1.15.1).
+	matchDateISO = regexp.MustCompile(`^([+-]\d{6}|\d{4})(?:-(\d{2})(?:-(\d{2}))?)?(?:T(\d{2}):(\d{2})(?::(\d{2})(?:\.(\d{3}))?)?(Z|[+-]\d{2}:\d{2})?)?$`)
 )
+
+// dateParseISO parses a string in the Date Time String Format; ok is false if date is not in that format.
+func dateParseISO(date string) (epoch float64, ok bool) {
+	match := matchDateISO.FindStringSubmatch(date)
+	if match == nil {
+		return 0, false
+	}
+	number := func(text string, default_ int) int {
+		if text == "" {
+			return default_
+		}
+		value, _ := strconv.Atoi(text)
+		return value
+	}
+	year, month, day := number(match[1], 0), number(match[2], 1), number(match[3], 1)
+	hour, minute, second, milli := number(match[4], 0), number(match[5], 0), number(match[6], 0), number(match[7], 0)
+	offset := 0
+	if zone := match[8]; zone != "" && zone != "Z" {
+		zoneHour, zoneMinute := number(zone[1:3], 0), number(zone[4:6], 0)
+		if zoneHour > 23 || zoneMinute > 59 {
+			return math.NaN(), true
+		}
+		offset = zoneHour*60 + zoneMinute
+		if zone[0] == '-' {
+			offset = -offset
+		}
+	}
+	// 24:00:00.000 is midnight at the end of the day.
+	if month < 1 || month > 12 || day < 1 || minute > 59 || second > 59 || hour > 24 ||
+		(hour == 24 && (minute != 0 || second != 0 || milli != 0)) ||
+		Time.Date(year, Time.Month(month), day, 0, 0, 0, 0, Time.UTC).Day() != day {
+		return math.NaN(), true
+	}
+	time := Time.Date(year, Time.Month(month), day, hour, minute, second, milli*1000*1000, Time.UTC)
+	epoch = float64(time.UnixMilli() - int64(offset)*60*1000)
+	if math.Abs(epoch) > 8.64e15 {
+		return math.NaN(), true
+	}
+	return epoch, true
+}
 
 // dateParse returns the epoch of the parsed date.
 func dateParse(date string) float64 {
 	// YYYY-MM-DDTHH:mm:ss.sssZ
 	var time Time.Time
 	var err error
+
+	if epoch, ok := dateParseISO(date); ok {
+		return epoch
+	}
 
 	if match := matchDateTimeZone.FindStringSubmatch(date); match != nil {
 		if match[2] == "Z" {
